@@ -369,6 +369,14 @@ func (m *monitor) afterStep() {
 			continue
 		}
 		m.commitSeen[term] = co
+		// a serving leader's database is the replay of its log up to its commit offset (it applies every entry when
+		// the entry commits, whoever is or is not still waiting for the answer)
+		c.mu.Lock()
+		serving := n.status == proto.ServingStatus_LEADER && n.asyncRPC == 0
+		c.mu.Unlock()
+		if serving {
+			m.auditLeaderDB(n.id, term, lg[:co+1], fmt.Sprintf("is LEADER of term %d with commit offset %d; the committed part of its log is", term, co))
+		}
 		pre := lg[:co+1]
 		m.committed[term] = append([]entry(nil), pre...)
 		ens := m.termEns[term]
@@ -481,7 +489,7 @@ func (m *monitor) onLeader(n int, term int64) {
 			}
 		}
 	}
-	m.auditLeaderDB(n, term, lg)
+	m.auditLeaderDB(n, term, lg, fmt.Sprintf("became LEADER of term %d with log", term))
 }
 
 // checkAcked: C01 on one leader.
@@ -534,7 +542,7 @@ func (m *monitor) checkAcked(n int, term int64, lg []entry) {
 }
 
 // auditLeaderDB: a node that has just become LEADER must expose exactly the effects of its log.
-func (m *monitor) auditLeaderDB(n int, term int64, lg []entry) {
+func (m *monitor) auditLeaderDB(n int, term int64, lg []entry, when string) {
 	c := m.c
 	nd := c.node(n)
 	lc, err := nd.director.GetLeader(shardId)
@@ -561,8 +569,8 @@ func (m *monitor) auditLeaderDB(n int, term int64, lg []entry) {
 	st := m.fold(lg, len(lg))
 	c.stats["leader-db-audits"]++
 	if !st.matches(o) {
-		c.violate("leader:db-differs-from-its-log", fmt.Sprintf("node %d became LEADER of term %d with log %s; replaying the log gives %s but its database shows %s",
-			n, term, logTok(lg), st, o.resultString()))
+		c.violate("leader:db-differs-from-its-log", fmt.Sprintf("node %d %s %s; replaying it gives %s but its database shows %s",
+			n, when, logTok(lg), st, o.resultString()))
 	}
 }
 
